@@ -39,6 +39,13 @@ TIE_MASK = 1 | 2 | 512 | 2048
 PROBES = ["M0 0C1 5 2 6 10 7"]
 
 
+def prepare():
+    """setup: regenerate Gen/*.v from the current source (translator) so that a fresh checkout builds"""
+    ok, log = vlib.run_translator()
+    if not ok:
+        raise vlib.BuildError("translator failed on the current source:\n" + log[-2000:])
+
+
 def local_findings():
     """entries proposed by this check for known_findings.json (design/C08.findings.json) until the lead merges them"""
     p = os.path.join(vlib.ROOT, "design", "C08.findings.json")
